@@ -12,7 +12,7 @@ WORK = os.path.join(os.environ.get("VERIF_BUILD") or os.path.join(os.path.dirnam
 _PROGS = {}
 _OWNER = os.getpid()
 # log lines of the extractor's registered functions that are host-call events (everything except create/clone/drop/eq bookkeeping)
-HOST_EVENT_PREFIXES = ("emit", "pure", "msub", "opt_of", "res_of", "after_unit", "around_unit")
+HOST_EVENT_PREFIXES = ("emit", "pure", "msub", "opt_of", "res_of", "after_unit", "around_unit", "after_zst")
 
 
 def _check(args):
@@ -40,6 +40,8 @@ def concrete_reference(prog, argbits):
         b = next(it)
         if lang.is_int(t):
             args.append(z3.BitVecVal(b, lang.INTS[t][0]))
+        elif t == "Zst":
+            args.append(None)
         elif t == "bool":
             args.append(z3.BoolVal(bool(b)))
         elif t == "char":
